@@ -81,7 +81,11 @@ def programs(draw, kinds=KINDS, force_with=True):
     # 1 a comprehension whose loop variable is captured (inlined into the frame on 3.12), 2 an argument that is
     # closed over, 3 both, 4 a local that becomes a cell because a nested def captures it
     closure = draw(st.sampled_from([0] * 5 + [1, 2, 3, 4]))
-    return finish({"kind": kind, "body": body, "conds": conds, "sched": sched, "extarg": extarg, "closure": closure})
+    # locals that have nothing to do with any manager but are awkward to look at: a dead weakref proxy, a lazy object whose
+    # __class__ is computed (and logs the computation as an event of the program), a bound method of a nameless callable
+    odd_locals = draw(st.sampled_from([False, False, False, True]))
+    return finish({"kind": kind, "body": body, "conds": conds, "sched": sched, "extarg": extarg, "closure": closure,
+                   "odd_locals": odd_locals})
 
 
 def _has_with(stmts):
@@ -221,6 +225,8 @@ def features(prog):
                 f.add("match")
 
     walk(prog["body"], False)
+    if prog.get("odd_locals"):
+        f.add("odd_locals")
     if prog.get("closure"):
         f.add("frame_layout.closure_%d" % prog["closure"])
     if prog.get("extarg"):
